@@ -315,7 +315,7 @@ def gen_history(ch: Chooser, inputs: list[dict], thresholds, n_steps: int,
                 one_at_a_time: bool = False) -> list[dict]:
     """List of steps; each step assigns new values to a subset of inputs."""
     hist = []
-    around = sorted(thresholds)[:12]
+    around = sorted(thresholds, key=abs)[:24]
     for _ in range(n_steps):
         if one_at_a_time:
             chosen = [ch.pick(inputs)]
